@@ -452,4 +452,222 @@ theorem srcvStep_szx (cap : Nat) (junk : UInt8) (maxBlk : Nat) (st : Option Srcv
       · exact Or.inl ⟨s, e1, by rw [hk, e2]⟩
       · exact Or.inr ⟨e1, by rw [hk, e2]⟩
 
+
+/-- the block size the client starts with -/
+def b1B0 (P : B1Par) : Nat :=
+  match addDataLarge P.maxSize P.tokLen P.optBytes P.lastOpt P.blk P.maxBlkC P.body.length P.rtagLen with
+  | some r => r.blkSize
+  | none => 0
+
+/-- the block size the transfer settles on -/
+def b1S (P : B1Par) : Nat := if P.maxBlk ≠ 0 ∧ P.maxBlk < b1B0 P then P.maxBlk else b1B0 P
+
+theorem b1S_le (P : B1Par) : b1S P ≤ b1B0 P := by
+  unfold b1S; split <;> omega
+
+/-- the SZX the server tracks / answers with for a request in one of the two sizes -/
+theorem szxR_eq (P : B1Par) (num szx : Nat) (h : szx = b1S P ∨ (szx = b1B0 P ∧ num = 0)) :
+    (if num = 0 ∧ P.maxBlk ≠ 0 ∧ P.maxBlk < szx then P.maxBlk else szx) = b1S P := by
+  unfold b1S at *
+  generalize b1B0 P = B at *
+  by_cases hc : P.maxBlk ≠ 0 ∧ P.maxBlk < B
+  · rw [if_pos hc] at h
+    rw [if_pos hc]
+    rcases h with h | ⟨h, h0⟩
+    · rw [if_neg (by omega)]; exact h
+    · rw [if_pos ⟨h0, hc.1, by omega⟩]
+  · rw [if_neg hc] at h
+    rw [if_neg hc]
+    have hsz : szx = B := by rcases h with h | ⟨h, _⟩ <;> exact h
+    rw [if_neg (by intro hh; exact hc ⟨hh.2.1, by omega⟩)]
+    exact hsz
+
+/-- a request datagram is what a libcoap client sends for this body -/
+def ReqOK (P : B1Par) (d : Req1) : Prop :=
+  d.szx ≤ 6 ∧ d.num < nBlocks P.body.length d.szx ∧ d.payload = slice P.body d.szx d.num ∧
+  d.m = more P.body.length d.szx d.num ∧ d.size1 = some P.body.length ∧
+  (d.szx = b1S P ∨ (d.szx = b1B0 P ∧ d.num = 0))
+
+structure B1Inv (P : B1Par) (s : B1Sys) : Prop where
+  req : ∀ d, d ∈ s.reqs → ReqOK P d
+  rsp : ∀ ok blk, (ok, blk) ∈ s.rsps → ∀ num szx, blk = some (num, szx) → szx = b1S P
+  cli : ∀ x, s.cli = some x → x.data = P.body ∧ XmitInv x ∧ (x.blkSize = b1B0 P ∨ x.blkSize = b1S P)
+  srv : ∀ v, s.srv = some v → SrcvInv P.cap P.body v ∧ v.szx = b1S P
+  outs : ∀ o, o ∈ s.outs → ∀ b l, o = SrcvOut.deliver b l → b = P.body ∧ l = P.body.length
+
+structure B1ParOK (P : B1Par) : Prop where
+  len : P.body.length < 2 ^ 31
+  ms : P.maxSize < 2 ^ 62
+
+theorem b1_init_inv (P : B1Par) : B1Inv P {} :=
+  { req := (by intro d hd; cases hd)
+    rsp := (by intro ok blk h; cases h)
+    cli := (by intro x hx; cases hx)
+    srv := (by intro v hv; cases hv)
+    outs := (by intro o ho; cases ho) }
+
+theorem b1Put_inv (P : B1Par) (hP : B1ParOK P) (s : B1Sys) (hinv : B1Inv P s) : B1Inv P (b1Step P s B1Event.appPut) := by
+  simp only [b1Step]
+  cases ha : addDataLarge P.maxSize P.tokLen P.optBytes P.lastOpt P.blk P.maxBlkC P.body.length P.rtagLen with
+  | none => exact hinv
+  | some r =>
+    simp only
+    by_cases hlg : r.lgXmit = true
+    · rw [if_pos hlg]
+      have hlen := hP.len
+      obtain ⟨f1, f2, f3, f4⟩ := addDataLarge_first _ _ _ _ _ _ _ _ r hP.ms (by omega) ha hlg
+      have hB0 : b1B0 P = r.blkSize := by unfold b1B0; rw [ha]
+      rw [f1]
+      simp only
+      have hv16 : blockValue 0 1 r.blkSize / 16 = 0 := by unfold blockValue; omega
+      have hv8 : (blockValue 0 1 r.blkSize / 8) % 2 = 1 := by unfold blockValue; omega
+      have hvs : blockValue 0 1 r.blkSize % 8 = r.blkSize := by unfold blockValue; omega
+      rw [hv16, hv8, hvs, f2]
+      have hcs : 2 ^ (r.blkSize + 4) = chunkSize r.blkSize := rfl
+      have hnb : 1 < nBlocks P.body.length r.blkSize := (lt_nBlocks_iff _ _ 1).mpr (by rw [← hcs]; omega)
+      have hmore : more P.body.length r.blkSize 0 = 1 := by unfold more; rw [if_pos (by omega)]
+      have hsl : P.body.take (2 ^ (r.blkSize + 4)) = slice P.body r.blkSize 0 := by unfold slice chunkSize; simp
+      refine { req := ?_, rsp := hinv.rsp, cli := ?_, srv := hinv.srv, outs := hinv.outs }
+      · intro d hd
+        rcases List.mem_append.mp hd with hd | hd
+        · exact hinv.req d hd
+        · rw [List.mem_singleton] at hd
+          rw [hd]
+          exact ⟨f4, (by show 0 < nBlocks P.body.length r.blkSize; omega), hsl, hmore.symm, rfl, Or.inr ⟨hB0.symm, rfl⟩⟩
+      · intro x hx
+        cases hx
+        refine ⟨rfl, ⟨Nat.zero_mod _, ?_, f4⟩, Or.inl hB0.symm⟩
+        show 0 + 2 ^ (r.blkSize + 4) ≤ P.body.length + 1024
+        omega
+    · rw [if_neg hlg]; exact hinv
+
+theorem b1Req_inv (P : B1Par) (hP : B1ParOK P) (s : B1Sys) (d : Req1) (hd : d ∈ s.reqs) (hinv : B1Inv P s) :
+    B1Inv P { s with srv := (srcvStep P.cap P.junk P.maxBlk s.srv d.num d.m d.szx d.payload d.size1).1,
+                     outs := s.outs ++ [(srcvStep P.cap P.junk P.maxBlk s.srv d.num d.m d.szx d.payload d.size1).2],
+                     rsps := s.rsps ++ b1Responses P d (srcvStep P.cap P.junk P.maxBlk s.srv d.num d.m d.szx d.payload d.size1).2 } := by
+  obtain ⟨g1, g2, g3, g4, g5, g6⟩ := hinv.req d hd
+  have hsle := b1S_le P
+  have hg : Genuine P.body s.srv ⟨d.num, d.m, d.szx, d.payload, d.size1⟩ := by
+    refine ⟨g1, g2, g3, g4, ?_, ?_⟩
+    · intro v hv
+      have := (hinv.srv v hv).2
+      show v.szx ≤ d.szx
+      rcases g6 with g6 | ⟨g6, _⟩ <;> omega
+    · intro t ht
+      have ht' : d.size1 = some t := ht
+      rw [g5] at ht'
+      cases ht'
+      exact Nat.le_refl _
+  have hspec := srcvStep_spec P.cap P.junk P.maxBlk P.body s.srv ⟨d.num, d.m, d.szx, d.payload, d.size1⟩ _ _
+    (fun v hv => (hinv.srv v hv).1) hg hP.len rfl
+  refine { req := hinv.req, rsp := ?_, cli := hinv.cli, srv := ?_, outs := ?_ }
+  · intro ok blk hmem num szx hb
+    have hmem' : (ok, blk) ∈ s.rsps ++ b1Responses P d (srcvStep P.cap P.junk P.maxBlk s.srv d.num d.m d.szx d.payload d.size1).2 := hmem
+    rcases List.mem_append.mp hmem' with hm | hm
+    · exact hinv.rsp ok blk hm num szx hb
+    · unfold b1Responses at hm
+      cases hout : (srcvStep P.cap P.junk P.maxBlk s.srv d.num d.m d.szx d.payload d.size1).2 with
+      | cont =>
+        rw [hout] at hm
+        simp only at hm
+        by_cases hm1 : d.m = 1
+        · rw [if_pos hm1, List.mem_singleton] at hm
+          cases hm
+          cases hb
+          exact szxR_eq P d.num d.szx g6
+        · rw [if_neg hm1] at hm; cases hm
+      | deliver b l =>
+        rw [hout] at hm
+        simp only [List.mem_cons, List.mem_nil_iff, or_false] at hm
+        rcases hm with hm | hm <;> (cases hm; cases hb)
+      | fail =>
+        rw [hout] at hm
+        simp only [List.mem_singleton] at hm
+        cases hm; cases hb
+      | undersized =>
+        rw [hout] at hm
+        simp only [List.mem_singleton] at hm
+        cases hm; cases hb
+  · intro v hv
+    have hv' : (srcvStep P.cap P.junk P.maxBlk s.srv d.num d.m d.szx d.payload d.size1).1 = some v := hv
+    refine ⟨hspec.1 v hv', ?_⟩
+    rcases srcvStep_szx _ _ _ _ _ _ _ _ _ v hv' with ⟨v0, e1, e2⟩ | ⟨_, e2⟩
+    · rw [e2]; exact (hinv.srv v0 e1).2
+    · rw [e2]; exact szxR_eq P d.num d.szx g6
+  · intro o ho b l hb
+    have ho' : o ∈ s.outs ++ [(srcvStep P.cap P.junk P.maxBlk s.srv d.num d.m d.szx d.payload d.size1).2] := ho
+    rcases List.mem_append.mp ho' with ho' | ho'
+    · exact hinv.outs o ho' b l hb
+    · rw [List.mem_singleton] at ho'
+      obtain ⟨x, y, _⟩ := hspec.2 b l (ho' ▸ hb)
+      exact ⟨x, y⟩
+
+theorem b1Rsp_inv (P : B1Par) (hP : B1ParOK P) (s : B1Sys) (ok : Bool) (blk : Option (Nat × Nat)) (x : LgXmit)
+    (hr : (ok, blk) ∈ s.rsps) (hx : s.cli = some x) (hinv : B1Inv P s) :
+    B1Inv P { s with cli := (xmitB1Step x P.room ok blk).1,
+                     reqs := s.reqs ++ (match (xmitB1Step x P.room ok blk).2 with
+                                        | .sendNext n m sx p => [⟨n, m, sx, p, some P.body.length⟩]
+                                        | _ => []) } := by
+  obtain ⟨c1, c2, c3⟩ := hinv.cli x hx
+  have hsle := b1S_le P
+  have hlen := hP.len
+  have hblk : ∀ num szx, blk = some (num, szx) → szx ≤ x.blkSize := by
+    intro num szx hb
+    have := hinv.rsp ok blk hr num szx hb
+    rcases c3 with c3 | c3 <;> omega
+  refine { req := ?_, rsp := hinv.rsp, cli := ?_, srv := hinv.srv, outs := hinv.outs }
+  · intro d hd
+    have hd' : d ∈ s.reqs ++ (match (xmitB1Step x P.room ok blk).2 with
+        | .sendNext n m sx p => [⟨n, m, sx, p, some P.body.length⟩]
+        | _ => []) := hd
+    rcases List.mem_append.mp hd' with hd' | hd'
+    · exact hinv.req d hd'
+    · cases hres : xmitB1Step x P.room ok blk with
+      | mk st' o =>
+        rw [hres] at hd'
+        cases o with
+        | sendNext n m sx p =>
+          simp only [List.mem_singleton] at hd'
+          rw [hd']
+          obtain ⟨a, b, _, ⟨num0, hb⟩, e⟩ := xmitB1Step_spec x P.room ok blk st' n m sx p hres
+          have hsx := hinv.rsp ok blk hr num0 sx hb
+          obtain ⟨e1, _⟩ := e c2 (hblk num0 sx hb)
+          rw [c1] at a b e1
+          have h6 : sx ≤ 6 := by have := hblk num0 sx hb; have := c2.2.2; omega
+          exact ⟨h6, a, b, e1, rfl, Or.inl hsx⟩
+        | dupIgnored => simp only at hd'; cases hd'
+        | finished => simp only at hd'; cases hd'
+        | fail500 => simp only at hd'; cases hd'
+  · intro x' hx'
+    have hx'' : (xmitB1Step x P.room ok blk).1 = some x' := hx'
+    obtain ⟨a, b, _, num, szx, hb, e⟩ := xmitB1Step_inv x P.room ok blk x' c2 (by rw [c1]; omega) hblk hx''
+    exact ⟨by rw [b, c1], a, Or.inr (by rw [e]; exact hinv.rsp ok blk hr num szx hb)⟩
+
+theorem b1Step_inv (P : B1Par) (hP : B1ParOK P) (s : B1Sys) (e : B1Event) (hinv : B1Inv P s) : B1Inv P (b1Step P s e) := by
+  cases e with
+  | appPut => exact b1Put_inv P hP s hinv
+  | reqArrives i =>
+    simp only [b1Step]
+    cases hq : s.reqs[i]? with
+    | none => exact hinv
+    | some d => exact b1Req_inv P hP s d (List.mem_of_getElem? hq) hinv
+  | rspArrives j =>
+    simp only [b1Step]
+    cases hq : s.rsps[j]? with
+    | none => exact hinv
+    | some r =>
+      obtain ⟨ok, blk⟩ := r
+      cases hc : s.cli with
+      | none => exact hinv
+      | some x => exact b1Rsp_inv P hP s ok blk x (List.mem_of_getElem? hq) hc hinv
+  | srvExpire =>
+    exact { req := hinv.req, rsp := hinv.rsp, cli := hinv.cli, srv := (by intro v hv; cases hv), outs := hinv.outs }
+  | cliExpire =>
+    exact { req := hinv.req, rsp := hinv.rsp, cli := (by intro x hx; cases hx), srv := hinv.srv, outs := hinv.outs }
+
+theorem b1Run_inv (P : B1Par) (hP : B1ParOK P) : ∀ (evs : List B1Event) (s : B1Sys), B1Inv P s →
+    B1Inv P (evs.foldl (b1Step P) s)
+  | [], _, h => h
+  | e :: evs, s, h => b1Run_inv P hP evs _ (b1Step_inv P hP s e h)
+
 end Coap.Block
